@@ -318,7 +318,8 @@ def judge(R: Recorder, forest: list[dict[str, Any]], prog: list[dict[str, Any]],
                 missing = [what for what, val in (("trace id", m.trace_id), ("name", m.label), ("identifier", m.identifier)) if str(val) not in prefix]
                 R.monitor("tagged", not missing, where={**wcall, "kind": "tag-missing", "missing": missing[0] if missing else None}, detail=f"call {lid} in scope {scope}: prefix {prefix!r} lacks {missing} (trace {m.trace_id!r}, name {m.label!r}, id {m.identifier!r})", case=rec)
         if step.get("exc"):
-            ok = r.exc_info is not None and (r.exc_info is True or r.exc_info[1] is W.log_excs.get(lid))
+            # (a record whose exc_info is not the (type, value, traceback) form - or is falsy - is formatted without the exception)
+            ok = bool(r.exc_info) and (r.exc_info is True or (isinstance(r.exc_info, tuple) and r.exc_info[1] is W.log_excs.get(lid)))
             R.monitor("exception", bool(ok), where={"kind": "exception-dropped", "level": step["level"]}, detail=f"call {lid}: exc_info {r.exc_info!r}, passed {W.log_excs.get(lid)!r}", case=rec)
     R.case((forest, [(s["level"], s["fmt"].split(">")[-1], len(s["args"])) for s, _ in calls.values()]), nontrivial=nontrivial)
     if R.want_sample("forest") and nontrivial and len(blocks) >= 3:
